@@ -37,8 +37,6 @@ def emit_c18(emit, find, src, join_literals, Missing):
             raise Missing("std::chrono::%s is not a known duration type" % ty)
         rows.append("(%s, %d%%Z)" % (nlist(join_literals(lit)), CHRONO_NS[ty]))
     emit("Definition c18_duration_units : list (list N * Z) := [%s]." % "; ".join(rows))
-    if not re.search(r"if\s*\(result\s*==\s*0\)\s*\{[^}]*return\s+false\s*;", body):
-        raise Missing("the zero-duration rejection of GetTimeoutFromString in " + E)
 
     R = "sdk/src/resource/resource.cc"
     ver = join_literals(find("sdk/include/opentelemetry/sdk/version/version.h",
